@@ -162,6 +162,7 @@ type StreamStat struct {
 	Dist        map[string]int `json:"distribution,omitempty"`
 	Samples     []string       `json:"samples"`
 	ModelCmp    int            `json:"compared_with_model"`
+	ModelSkip   int            `json:"model_unsupported"`
 	WallS       float64        `json:"wall_s"`
 }
 
@@ -254,6 +255,13 @@ func RunStream(rep *Report, name string, exhaustive bool, bound string, withMode
 						st.Samples = append(st.Samples, c.Line+" => "+c.Real)
 					}
 					if c.Line != "" && withModel {
+						if ans[li] == "unsupported" || ans[li] == "fuel" {
+							// the model declares the case outside its universe (a leaf rendering the
+							// oracle table lacks, an unmodelled path): counted, not compared
+							st.ModelSkip++
+							li++
+							continue
+						}
 						st.ModelCmp++
 						if ans[li] != c.Real {
 							rep.addDis(Disagreement{name, c.Line, c.Real, ans[li]})
@@ -293,6 +301,11 @@ func RunStream(rep *Report, name string, exhaustive bool, bound string, withMode
 	rep.mu.Lock()
 	rep.Streams = append(rep.Streams, st)
 	rep.mu.Unlock()
+}
+
+// RunStreamFiltered: a model-compared stream whose model may answer "unsupported".
+func RunStreamFiltered(rep *Report, name string, exhaustive bool, bound string, nshards int, gen GenFn) {
+	RunStream(rep, name, exhaustive, bound, true, nshards, gen)
 }
 
 func (r *Report) Write(path string) {
